@@ -49,8 +49,6 @@ func stubOsOpenFail(name string) (*os.File, error) {
 	return &os.File{}, nil
 }
 
-
-
 func stubHTTPError(w http.ResponseWriter, e string, code int) { httpErrors = append(httpErrors, code) }
 
 var httpErrors []int
